@@ -4,36 +4,54 @@ import Tuc.Props.C12
 /-!
 # Tuc.Props.LinesLoop — the statements of `cut_lines.rs` refine the normal-form model
 
-`Tuc.Model.LinesLoop` follows the Rust text of `read_line_with_eol`, `cut_lines_forward_only`,
-`cut_lines` and `read_and_cut_lines` statement by statement (`bounds_idx` a `usize` index with
-`opt.bounds.get(bounds_idx).unwrap()` checked, `line_idx` an `i32` with a checked `+= 1`, the three
-`while` loops with fuel, the reader a byte string consumed by `read_until`).  This file proves that
-they compute exactly what `Tuc.Model.Lines` says:
+`Tuc.Model.LinesLoop` follows the Rust text (commit 9782769) of `read_line_with_eol`,
+`cut_lines_forward_only`, `cut_lines` and `read_and_cut_lines` statement by statement
+(`bounds_idx` a `usize` index with `opt.bounds.get(bounds_idx).unwrap()` checked, `line_idx` an
+`i32` advanced with `checked_add` and the flag `past_last_index`, the three `while` loops with
+fuel, the reader a byte string consumed by `read_until`).  This file proves that they compute
+exactly what `Tuc.Model.Lines` says, on inputs of ANY number of lines:
 
 * `cutLinesForwardOnlyLoop_eq` — `cutLinesForwardOnlyLoop = cutLinesForwardOnly` for EVERY input
-  (valid UTF-8 or not), EVERY `Opt` and EVERY bounds list — forward-only or not: the function is
-  compared as it is written, not only where the dispatcher calls it — under ONE hypothesis: the
-  input has at most 2³¹ − 1 lines (`line_idx` is an `i32`; the model counts in `Int`).
-* `cutLinesForwardOnlyLoop_safe` — under the same hypothesis the run ends with `Ok` or `Err`: the
-  `.unwrap()` of l.30 cannot panic, `line_idx += 1` does not overflow, and none of the three loops
-  uses up its fuel (`input.len() + 1` calls of `read_line_with_eol`, `bounds.len() + 1` turns of
-  the loop over the bounds per line and of the epilogue): they terminate.
-* `cutLinesForwardOnlyLoop_overflow` — the hypothesis is needed: with an open last bound and 2³¹
-  UTF-8 lines or more the literal function panics (debug build) where the model goes on.
+  (valid UTF-8 or not, any number of lines) and every `Opt` whose bounds are `LinesLoop.PastOk`:
+  every written side is at most `i32::MAX` and no open-ended bound starts at a negative index.
+  The model counts lines in `Int`; the code counts in `i32` and, from the 2³¹-th line on, takes
+  "open-ended" for "matches" and no bound for exhausted — `LinesLoop.isMatch_eq` and
+  `LinesLoop.exhausted_eq` show that this is what `matches` / `b.r == Some(n)` say for every
+  `n > i32::MAX` on such bounds (`LinesLoop.Tracks` relates `(line_idx, past_last_index)` to the
+  model's index).  The hypothesis is needed for equality with the model as it is written (two
+  `#guard`s below: `-2:` and a side above `i32::MAX` differ past the edge) but never bites:
+  `pastOk_of_forwardOnly` — a forward-only list with sides inside `i32` is `PastOk`;
+  `parsed_inI32` — the parser only produces sides inside `i32`.
+* `cutLinesForwardOnlyLoop_eq_of_count` / `_of_length` — the same for EVERY bounds list
+  (forward-only or not, sides of any size) when the input has at most 2³¹ − 1 lines (is shorter than
+  2³¹ bytes): the function is compared as it is written, not only where the dispatcher calls it.
+* `cutLinesForwardOnlyLoop_safe` — the run ends with `Ok` or `Err`: the `.unwrap()` of l.36 cannot
+  panic and none of the three loops uses up its fuel (`input.len() + 1` calls of
+  `read_line_with_eol`, `bounds.len() + 1` turns of the loop over the bounds per line and of the
+  epilogue): they terminate.
 * `cutLinesLit_eq` — the buffered `cut_lines` is the existing definition (by `rfl`).
 * `readAndCutLinesLoop_eq` — the dispatcher `read_and_cut_lines` takes the same path and gives the
-  same run as `readAndCutLines`, for every input and every `Opt` (same hypothesis, needed on the
-  line-at-a-time path only: `readAndCutLinesLoop_eq_buffered` has none).
-* `_of_length` variants: an input shorter than 2³¹ bytes has fewer than 2³¹ lines.
+  same run as `readAndCutLines`, for EVERY input and every `Opt` whose written sides fit an `i32`;
+  `readAndCutLinesLoop_eq_of_parsed` — for bounds the parser accepted: no hypothesis left;
+  `readAndCutLinesLoop_eq_buffered` — the buffered path, no hypothesis.
 * pieces (in `Tuc.Lemmas.LinesLoop`): `reader_step` / `readLineWithEol_eq` (one call of
   `read_line_with_eol` against the record splitter `records` and the UTF-8 check of the model —
-  the EOL byte does not change validity), `innerWhile_eq` (l.29-69 = `fwdLine`),
-  `epilogueWhile_eq` (l.78-112 = `fwdEnd`), `readWhile_eq` (l.19-75 = `fwdLines`).
+  the EOL byte does not change validity), `tracks_step` (l.23-26), `innerWhile_eq` (l.35-81 =
+  `fwdLine`), `epilogueWhile_eq` (l.90-124 = `fwdEnd`), `readWhile_eq` (l.22-87 = `fwdLines`, from
+  any state of the counter).
+
+History: the first version of this file transcribed `line_idx += 1` (commit 103500e) and proved
+the equality only for inputs of fewer than 2³¹ lines, together with a theorem
+`cutLinesForwardOnlyLoop_overflow` (panic on the 2³¹-th line; the release binary silently dropped
+every later line, exit 0).  That defect was repaired in `/repo` (9782769); the theorem went with
+the old text.
 
 Section 0 compares literal and existing model by evaluation on all 728 inputs of at most 5 lines
 from `{"", a, bc}` with / without the final EOL × 15 bounds lists as the parser builds them (10
 forward-only, 5 not) × join / `--no-join` × `-z` (43 680 cases, both for the line-at-a-time function
-alone and for the dispatcher), then with lines that are not UTF-8, fallbacks, `-m` and `-p`.
+alone and for the dispatcher), then with lines that are not UTF-8, fallbacks, `-m` and `-p`, and
+then with the counter started at `i32::MAX − 2 … i32::MAX` and past it (11 bounds lists with sides
+at the edge × 62 inputs × join × 3 start values, twice).
 -/
 
 namespace Tuc
@@ -107,65 +125,147 @@ end LinesLoop
 #guard readLineWithEol [0xFF, 10, 99] .newline == (.someErr, [99])
 #guard readLineWithEol [] .zero == (.none, [])
 
-/-! the `i32` counter: the 2³¹-th line -/
+/-! the `i32` counter started next to its last value (`2147483647` = `i32::MAX`): every input of
+    at most 4 lines from `{"", a}`, bounds with sides at the edge, from two lines before it — the
+    rest of the function against the model started at the same index -/
 
-#guard (readWhile (testOpt ⟨[.bound { l := .some 1, r := .cont, isLast := true }], .cont⟩ true .newline
-    Option.none) 5 [97, 10] { lineIdx := 2147483646 }).1 == Run.ok [97]
-#guard (readWhile (testOpt ⟨[.bound { l := .some 1, r := .cont, isLast := true }], .cont⟩ true .newline
-    Option.none) 5 [97, 10] { lineIdx := 2147483647 }).1 == Run.panic
+namespace LinesLoop
+
+def edgeBoundsTexts : List String :=
+  ["2147483646", "2147483647", "2147483646:", "2147483647:", "2147483646:2147483647",
+   "2147483645:2147483646,2147483647:", "2147483647,2147483647:", "1:", "{2147483646}x{2147483647:}",
+   "2147483645,2147483647=F", ":2147483647"]
+
+def edgeBounds : List UserBoundsList :=
+  edgeBoundsTexts.filterMap fun s => (boundsListOfString s.toList).toOption
+
+end LinesLoop
+
+#guard edgeBounds.length == 11
+
+#guard [2147483645, 2147483646, 2147483647].all fun (start : Int) =>
+  edgeBounds.all fun bounds => [false, true].all fun join =>
+    (testInputs [[], [97]] 4 10).all fun input =>
+      let opt := testOpt bounds join .newline Option.none
+      finish opt (readWhile opt (input.length + 1) input { lineIdx := start }) ==
+        fwdLines opt (records 10 input) start bounds.list false
+
+/-! … and with the flag already set (the model's index is then anything above `i32::MAX`) -/
+
+#guard [2147483648, 2147483650, 4294967296].all fun (idx : Int) =>
+  edgeBounds.all fun bounds => [false, true].all fun join =>
+    (testInputs [[], [97]] 4 10).all fun input =>
+      let opt := testOpt bounds join .newline Option.none
+      finish opt (readWhile opt (input.length + 1) input
+          { lineIdx := 2147483647, pastLastIndex := true }) ==
+        fwdLines opt (records 10 input) idx bounds.list false
+
+/-! why `PastOk` is asked for: past the edge the code takes "open-ended" for "matches"; the MODEL
+    (an `Int` index handed to `matches`) says otherwise for an open-ended bound with a negative
+    start (`-2:`: sign mismatch, no match) or with a start above `i32::MAX` — neither is ever
+    handed to this function by the dispatcher, resp. produced by the parser -/
+
+#guard finish (testOpt ⟨[.bound { l := .some (-2), r := .cont, isLast := true }], .cont⟩ true
+    .newline Option.none)
+  (readWhile (testOpt ⟨[.bound { l := .some (-2), r := .cont, isLast := true }], .cont⟩ true
+    .newline Option.none) 9 [97, 10] { lineIdx := 2147483647, pastLastIndex := true }) !=
+  fwdLines (testOpt ⟨[.bound { l := .some (-2), r := .cont, isLast := true }], .cont⟩ true
+    .newline Option.none) [[97]] 2147483648 [.bound { l := .some (-2), r := .cont, isLast := true }] false
+
+#guard finish (testOpt ⟨[.bound { l := .some 2147483650, r := .cont, isLast := true }], .cont⟩ true
+    .newline Option.none)
+  (readWhile (testOpt ⟨[.bound { l := .some 2147483650, r := .cont, isLast := true }], .cont⟩ true
+    .newline Option.none) 9 [97, 10] { lineIdx := 2147483647, pastLastIndex := true }) !=
+  fwdLines (testOpt ⟨[.bound { l := .some 2147483650, r := .cont, isLast := true }], .cont⟩ true
+    .newline Option.none) [[97]] 2147483648 [.bound { l := .some 2147483650, r := .cont, isLast := true }] false
+
+/-! `-l 2147483647:` on three lines read as lines 2³¹−2, 2³¹−1 and 2³¹: the last two are printed
+    (before the repair the third one made `line_idx += 1` overflow) -/
+
+#guard finish (testOpt ⟨[.bound { l := .some 2147483647, r := .cont, isLast := true }], .cont⟩ true
+    .newline Option.none)
+  (readWhile (testOpt ⟨[.bound { l := .some 2147483647, r := .cont, isLast := true }], .cont⟩ true
+    .newline Option.none) 9 [97, 10, 98, 10, 99, 10] { lineIdx := 2147483645 }) ==
+  Run.ok [98, 10, 99, 10]
+
+#guard nextLine { lineIdx := 2147483646 } == { lineIdx := 2147483647 }
+#guard nextLine { lineIdx := 2147483647 } == { lineIdx := 2147483647, pastLastIndex := true }
+#guard nextLine { lineIdx := 2147483647, pastLastIndex := true } ==
+  { lineIdx := 2147483647, pastLastIndex := true }
 
 /-! ## 1. `cut_lines_forward_only` -/
 
+/-- the initial state of the counter stands for the model's index 0 -/
+theorem tracks_init : Tracks 0 0 false := Or.inl ⟨rfl, rfl, Int.le_refl _, by simp [i32Max]⟩
+
 /-- **`cut_lines_forward_only`: the statements are the normal form** — same bytes, same status —
-    for every input, every `Opt`, every bounds list (forward-only or not), as long as the `i32`
-    counter `line_idx` fits: at most 2³¹ − 1 lines. -/
+    for EVERY input, of any number of lines, and every `Opt` whose bounds are `PastOk`: every
+    written side is at most `i32::MAX` and no open-ended bound starts at a negative index (every
+    forward-only list the parser produces: `pastOk_of_forwardOnly`, `parsed_inI32`).  The `i32`
+    counter with its flag `past_last_index` behaves like the unbounded counter of the model. -/
 theorem cutLinesForwardOnlyLoop_eq (opt : Opt) (input : Bytes)
-    (hfit : ((records opt.eol.byte input).length : Int) ≤ i32Max) :
-    cutLinesForwardOnlyLoop opt input = cutLinesForwardOnly opt input := by
-  have := readWhile_eq opt (input.length + 1) input [] opt.bounds.list 0 false (by simp) (by omega)
-    (Int.le_refl _) (by omega)
-  exact this
+    (hb : ∀ b, BoF.bound b ∈ opt.bounds.list → PastOk b) :
+    cutLinesForwardOnlyLoop opt input = cutLinesForwardOnly opt input :=
+  readWhile_eq opt (input.length + 1) input [] opt.bounds.list 0 0 false false (by simp) (by omega)
+    tracks_init (Or.inl hb)
 
-/-- **it ends with `Ok` or `Err`**: no panic (`.unwrap()` of l.30, `line_idx += 1`), and the loops
-    terminate (the fuel is never used up) -/
+/-- the same for EVERY bounds list (forward-only or not, sides of any size) on an input of at most
+    2³¹ − 1 lines: the flag is then never set -/
+theorem cutLinesForwardOnlyLoop_eq_of_count (opt : Opt) (input : Bytes)
+    (hfit : ((records opt.eol.byte input).length : Int) ≤ i32Max) :
+    cutLinesForwardOnlyLoop opt input = cutLinesForwardOnly opt input :=
+  readWhile_eq opt (input.length + 1) input [] opt.bounds.list 0 0 false false (by simp) (by omega)
+    tracks_init (Or.inr (by omega))
+
+/-- **it ends with `Ok` or `Err`**: no panic (`.unwrap()` of l.36), and the loops terminate (the
+    fuel is never used up) -/
 theorem cutLinesForwardOnlyLoop_safe (opt : Opt) (input : Bytes)
-    (hfit : ((records opt.eol.byte input).length : Int) ≤ i32Max) :
+    (hb : ∀ b, BoF.bound b ∈ opt.bounds.list → PastOk b) :
     (cutLinesForwardOnlyLoop opt input).Safe := by
-  rw [cutLinesForwardOnlyLoop_eq opt input hfit]
+  rw [cutLinesForwardOnlyLoop_eq opt input hb]
   exact cutLinesForwardOnly_safe opt input
-
-/-- **the hypothesis on the number of lines is needed**: when the bounds list ends with an open
-    bound (`N:` — the read loop is then never left early), every line is UTF-8 and the input has
-    2³¹ lines or more, the literal function panics (`line_idx += 1` overflows: panic in the debug
-    build; the release build wraps to `i32::MIN`, after which `matches` answers `Err` — taken as
-    "no match" by `unwrap_or(false)` — for every further line) — the normal-form model counts in
-    `Int` and prints every line. -/
-theorem cutLinesForwardOnlyLoop_overflow (opt : Opt) (input : Bytes) (r0 : List BoF) (b : UserBounds)
-    (hlist : opt.bounds.list = r0 ++ [.bound b]) (hb : b.r = .cont)
-    (hval : ∀ l ∈ records opt.eol.byte input, validUtf8 l = true)
-    (hmany : i32Max < ((records opt.eol.byte input).length : Int)) :
-    (cutLinesForwardOnlyLoop opt input).status = .panic := by
-  have h : (readWhile opt (input.length + 1) input
-      { lineIdx := 0, boundsIdx := 0, addNewlineNext := false }).1.status = .panic :=
-    readWhile_overflow opt b hb (input.length + 1) input [] r0 0 false (by simpa using hlist)
-      (by omega) (Int.le_refl _) (by simp [i32Max]) hval (by omega)
-  have hne : (readWhile opt (input.length + 1) input
-      { lineIdx := 0, boundsIdx := 0, addNewlineNext := false }).1.status ≠ .ok := by rw [h]; simp
-  unfold cutLinesForwardOnlyLoop
-  simp only [Run.seq_of_not_ok _ _ hne]
-  exact h
 
 /-! ## 2. `cut_lines` and the dispatcher -/
 
 /-- `cut_lines`: the transcription is the existing definition -/
 theorem cutLinesLit_eq (opt : Opt) (input : Bytes) : cutLinesLit opt input = cutLines opt input := rfl
 
-/-- **`read_and_cut_lines`: same path, same run**, for every input and every `Opt` -/
+/-- a forward-only list whose written sides fit an `i32` is `PastOk`: forward-only lists have no
+    negative index -/
+theorem pastOk_of_forwardOnly (l : List BoF) (hfwd : isForwardOnly l = true)
+    (h32 : ∀ b, BoF.bound b ∈ l → b.l.InI32 ∧ b.r.InI32) :
+    ∀ b, BoF.bound b ∈ l → PastOk b := by
+  intro b hb
+  obtain ⟨hl, hr⟩ := h32 b hb
+  have hneg : hasNegativeIndices l = false := by
+    unfold isForwardOnly at hfwd
+    simp only [Bool.and_eq_true, Bool.not_eq_true'] at hfwd
+    exact hfwd.2
+  have hbn : (b.l.isNeg || b.r.isNeg) = false := by
+    unfold hasNegativeIndices at hneg
+    have := List.any_eq_false.1 hneg b ((mem_boundsOnly l b).2 hb)
+    simpa using this
+  refine ⟨?_, ?_, ?_⟩
+  · intro v hv; rw [hv] at hl; exact hl.2
+  · intro w hw; rw [hw] at hr; exact hr.2
+  · intro _ v hv
+    rw [hv] at hbn
+    simp only [Side.isNeg, Bool.or_eq_false_iff, decide_eq_false_iff_not] at hbn
+    omega
+
+/-- **`read_and_cut_lines`: same path, same run**, for EVERY input (any number of lines) and every
+    `Opt` whose written sides fit an `i32` (what the parser guarantees: `parsed_inI32`) -/
 theorem readAndCutLinesLoop_eq (opt : Opt) (input : Bytes)
-    (hfit : ((records opt.eol.byte input).length : Int) ≤ i32Max) :
+    (h32 : ∀ b, BoF.bound b ∈ opt.bounds.list → b.l.InI32 ∧ b.r.InI32) :
     readAndCutLinesLoop opt input = readAndCutLines opt input := by
   unfold readAndCutLinesLoop readAndCutLines
-  simp only [Run.seq_empty, cutLinesLit_eq, cutLinesForwardOnlyLoop_eq opt input hfit]
+  by_cases hs : (!opt.complement && !opt.compressDelimiter && isForwardOnly opt.bounds.list) = true
+  · have hfwd : isForwardOnly opt.bounds.list = true := by
+      simp only [Bool.and_eq_true] at hs
+      exact hs.2
+    simp only [hs, if_true, Run.seq_empty,
+      cutLinesForwardOnlyLoop_eq opt input (pastOk_of_forwardOnly _ hfwd h32)]
+  · simp only [hs, Bool.false_eq_true, if_false, Run.seq_empty, cutLinesLit_eq]
 
 /-- the buffered path needs no hypothesis -/
 theorem readAndCutLinesLoop_eq_buffered (opt : Opt) (input : Bytes)
@@ -174,7 +274,32 @@ theorem readAndCutLinesLoop_eq_buffered (opt : Opt) (input : Bytes)
   unfold readAndCutLinesLoop readAndCutLines
   simp only [h, Bool.false_eq_true, if_false, Run.seq_empty, cutLinesLit_eq]
 
-/-! ## 3. in terms of the length of the input -/
+/-- whatever `UserBoundsList::from_str` accepts has all its written sides inside `i32` -/
+theorem parsed_inI32 (f : List Char) (u : UserBoundsList) (h : boundsListOfString f = .ok u) :
+    ∀ b, BoF.bound b ∈ u.list → b.l.InI32 ∧ b.r.InI32 := by
+  obtain ⟨l0, hl0, hfv⟩ := parsed_fromVec f u h
+  intro b hb
+  obtain ⟨b0, h0, h1, h2⟩ := fromVec_sides l0 u hfv b hb
+  obtain ⟨s, hs⟩ := parseBoundsList_parsed f l0 hl0 b0 h0
+  have wf := accepted_wellformed s b0 hs
+  exact ⟨h1 ▸ wf.2.2.1, h2 ▸ wf.2.2.2.1⟩
+
+/-- **`read_and_cut_lines` on what the command line can produce**: bounds the parser accepted, any
+    other option, EVERY input — no hypothesis left -/
+theorem readAndCutLinesLoop_eq_of_parsed (opt : Opt) (linesArg : List Char)
+    (hb : boundsListOfString linesArg = .ok opt.bounds) (input : Bytes) :
+    readAndCutLinesLoop opt input = readAndCutLines opt input :=
+  readAndCutLinesLoop_eq opt input (parsed_inI32 linesArg opt.bounds hb)
+
+/-- … and the line-at-a-time function on its own, for parsed forward-only bounds -/
+theorem cutLinesForwardOnlyLoop_eq_of_parsed (opt : Opt) (linesArg : List Char)
+    (hb : boundsListOfString linesArg = .ok opt.bounds)
+    (hfwd : isForwardOnly opt.bounds.list = true) (input : Bytes) :
+    cutLinesForwardOnlyLoop opt input = cutLinesForwardOnly opt input :=
+  cutLinesForwardOnlyLoop_eq opt input
+    (pastOk_of_forwardOnly _ hfwd (parsed_inI32 linesArg opt.bounds hb))
+
+/-! ## 3. any bounds list, in terms of the length of the input -/
 
 namespace LinesLoop
 
@@ -205,14 +330,11 @@ theorem records_count_le (eol : UInt8) (input : Bytes) : (records eol input).len
 
 end LinesLoop
 
+/-- every bounds list (forward-only or not, sides of any size), input shorter than 2³¹ bytes -/
 theorem cutLinesForwardOnlyLoop_eq_of_length (opt : Opt) (input : Bytes)
     (hlen : (input.length : Int) ≤ i32Max) :
     cutLinesForwardOnlyLoop opt input = cutLinesForwardOnly opt input :=
-  cutLinesForwardOnlyLoop_eq opt input (by have := records_count_le opt.eol.byte input; omega)
-
-theorem readAndCutLinesLoop_eq_of_length (opt : Opt) (input : Bytes)
-    (hlen : (input.length : Int) ≤ i32Max) :
-    readAndCutLinesLoop opt input = readAndCutLines opt input :=
-  readAndCutLinesLoop_eq opt input (by have := records_count_le opt.eol.byte input; omega)
+  cutLinesForwardOnlyLoop_eq_of_count opt input
+    (by have := records_count_le opt.eol.byte input; omega)
 
 end Tuc
